@@ -788,3 +788,333 @@ def _bad_in_children(n, pod, rng, budget, mk):
             vals[i] = b
             return mk(vals)
     return None
+
+
+# ---------------------------------------------------------------- dict-valued values: insertion order / key form variants
+#
+# A mapping-valued domain value (Template dict, Dataclass / BitfieldDataclass in dict form, BitField dict, FlagSwitch dict)
+# is the same value whatever its insertion order; FlagSwitch and BitfieldDataclass / Dataclass writers also accept both key /
+# container forms (flag member or member name as key; instance or plain dict) whatever the mode of the later read.  The model
+# value is order-insensitive (Spec.lookup on every dict access; the adapter c08_specs.to_sx canonicalises to declaration
+# order), the real code has to be as well.  A variant descriptor is a string
+#     <order>[+names|+members|+mixed][+dict]
+# with <order> = same | rev | shuf:<seed> | perm:<i,j,..> (applied to dicts with that many keys, the others are reversed).
+# Sequences (tuples, lists, collections, pod flag tuples) keep their order.
+
+import random as _random
+
+
+class _Reorder:
+    def __init__(self, variant: str):
+        parts = variant.split("+")
+        self.order = parts[0]
+        self.opts = set(parts[1:])
+        self.rng = _random.Random(int(self.order[5:])) if self.order.startswith("shuf:") else None
+        self.perm_ix = [int(i) for i in self.order[5:].split(",")] if self.order.startswith("perm:") else None
+        self.changed = False
+        self.flip = 0
+
+    def perm(self, items):
+        if len(items) < 2 or self.order == "same":
+            return items
+        if self.rng is not None:
+            out = list(items)
+            self.rng.shuffle(out)
+        elif self.perm_ix is not None and len(self.perm_ix) == len(items):
+            out = [items[i] for i in self.perm_ix]
+        else:
+            out = items[::-1]
+        if any(a[0] is not b[0] and a[0] != b[0] for a, b in zip(out, items)):
+            self.changed = True
+        return out
+
+    def key(self, member, cur):
+        """key form of a FlagSwitch entry"""
+        if "names" in self.opts:
+            new = member.name
+        elif "members" in self.opts:
+            new = member
+        elif "mixed" in self.opts:
+            self.flip += 1
+            new = member.name if (self.flip % 2) else member
+        else:
+            return cur
+        if type(new) is not type(cur):
+            self.changed = True
+        return new
+
+
+def _dc_items(v):
+    import dataclasses
+    return [(f.name, getattr(v, f.name)) for f in dataclasses.fields(v)]
+
+
+def _is_dc(v):
+    import dataclasses
+    return dataclasses.is_dataclass(v) and not isinstance(v, type)
+
+
+def _reorder(R: _Reorder, n: Node, v, ctxd=None):
+    from harness.translate import c08_specs as S
+    k, a = n.k, n.a
+    if v is None:
+        return v
+    if k == "template":
+        if not isinstance(v, dict):
+            return v
+        by = dict(zip(S.tkeys(n), n.ch))
+        return dict(R.perm([(kk, _reorder(R, by[kk], x, v) if kk in by else x) for kk, x in v.items()]))
+    if k == "dataclass":
+        by = dict(zip(S.tkeys(n), n.ch))
+        if isinstance(v, dict):
+            return dict(R.perm([(kk, _reorder(R, by[kk], x, v) if kk in by else x) for kk, x in v.items()]))
+        if not _is_dc(v):
+            return v
+        d = dict(_dc_items(v))
+        items = [(kk, _reorder(R, by[kk], x, d) if kk in by else x) for kk, x in d.items()]
+        if "dict" in R.opts:
+            R.changed = True
+            return dict(R.perm(items))
+        return type(v)(**dict(items))
+    if k == "flagswitch":
+        if not isinstance(v, dict):
+            return v
+        cls = S.flag_cls(a[0])
+        items = []
+        for kk, x in v.items():
+            for (nm, z), c in zip(a[3], n.ch):
+                m = cls["F%d" % nm]
+                if kk == m.name or (not isinstance(kk, str) and kk == m):
+                    x = _reorder(R, c, x, ctxd)
+                    kk = R.key(m, kk)
+                    break
+            items.append((kk, x))
+        return dict(R.perm(items))
+    if k == "adapter":
+        if a[0][0] != "bitfield":
+            return v
+        if isinstance(v, dict):
+            return dict(R.perm(list(v.items())))
+        if _is_dc(v) and "dict" in R.opts:
+            R.changed = True
+            return dict(R.perm(_dc_items(v)))
+        return v
+    if k in ("tuple", "coord"):
+        if k == "coord" or not isinstance(v, (list, tuple)) or len(v) != len(n.ch):
+            return v
+        return type(v)(_reorder(R, c, x) for c, x in zip(n.ch, v))
+    if k == "coll":
+        if not isinstance(v, (list, tuple)):
+            return v
+        return type(v)(_reorder(R, n.ch[0], x) for x in v)
+    if k in ("opt", "ifpresent", "optflagged", "typed"):
+        return _reorder(R, n.ch[0], v, ctxd)
+    if k == "ctxswitch":
+        return _reorder(R, n.ch[ctx_choice(n, ctxd)], v, ctxd)
+    if k == "lenswitch":
+        if type(v) is not tuple or len(v) != 2:
+            return v
+        tag = v[0]
+        idx = list(a[0]).index(tag) if tag in a[0] else (list(a[0]).index(None) if None in a[0] else None)
+        return v if idx is None else (tag, _reorder(R, n.ch[idx], v[1]))
+    if k == "enumswitch":
+        if type(v) is not tuple or len(v) != 2:
+            return v
+        tag = v[0]
+        z = dict(("E%d" % nm, zz) for nm, zz in reversed(a[0])).get(tag) if isinstance(tag, str) else int(tag)
+        if z not in a[4]:
+            return v
+        return (tag, _reorder(R, n.ch[list(a[4]).index(z)], v[1]))
+    return v
+
+
+def reorder(n: Node, v, variant: str):
+    """-> (the same value with every mapping rebuilt in another insertion order / key form, changed?)"""
+    R = _Reorder(variant)
+    out = _reorder(R, n, v)
+    return out, R.changed
+
+
+def reorder_sx(x, variant: str):
+    """the same permutation idea on a parsed MODEL value term: entries of every ( d ... ) in another order"""
+    R = _Reorder(variant.split("+")[0])
+
+    def go(t):
+        if not isinstance(t, list) or not t:
+            return t
+        if t[0] == "d":
+            return ["d"] + R.perm([[kv[0], go(kv[1])] for kv in t[1:]])
+        if t[0] == "l":
+            return ["l"] + [go(i) for i in t[1:]]
+        return t
+    return go(x)
+
+
+def has_mapping(n: Node) -> bool:
+    for x in n.walk():
+        if x.k in ("template", "dataclass", "flagswitch") or (x.k == "adapter" and x.a[0][0] == "bitfield"):
+            return True
+    return False
+
+
+def variants_for(n: Node, rng, count=2):
+    """variant descriptors worth trying for values of this spec"""
+    if not has_mapping(n):
+        return []
+    fs = any(x.k == "flagswitch" for x in n.walk())
+    dc = any(x.k == "dataclass" or (x.k == "adapter" and x.a[0][0] == "bitfield" and "data_cls" in x.x) for x in n.walk())
+    out = []
+    for i in range(count):
+        v = "rev" if i == 0 else "shuf:%d" % rng.randrange(1 << 30)
+        if fs:
+            v += rng.choice(("", "+names", "+members", "+mixed"))
+        if dc and rng.random() < 0.5:
+            v += "+dict"
+        out.append(v)
+    return out
+
+
+# ---------------------------------------------------------------- mapping-heavy spec trees
+
+def gen_flagswitch2(rng, depth, need_delim):
+    """FlagSwitch with >= 2 choices whenever the table allows"""
+    sub = lambda nd: gen_spec(rng, depth - 1, nd, 0.0, 0.0, True)
+    while True:
+        tbl = gen_tbl(rng, flags=True)
+        if len(tbl) >= 2:
+            break
+    w = 4 if any(z >= 128 for _, z in tbl) else rng.choice((1, 2, 4))
+    choices = rng.sample(list(tbl), rng.randrange(2, len(tbl) + 1))
+    if rng.random() < 0.7:
+        choices.sort(key=lambda c: list(tbl).index(c))       # otherwise: declared in another order than the flag class
+    chs = [sub(True if i < len(choices) - 1 else need_delim) for i in range(len(choices))]
+    return Node("flagswitch", (tbl, rng.random() < 0.2, w, tuple(choices)), chs)
+
+
+def gen_dicty(rng, depth=2, need_delim=False):
+    """spec trees around mapping-valued combinators (FlagSwitch, Template, Dataclass, BitField, flag / context templates)"""
+    r = rng.random()
+    sub = lambda nd: gen_spec(rng, depth - 1, nd, 0.0, 0.0, True)
+    if depth > 1 and r < 0.30:
+        inner = gen_dicty(rng, depth - 1, True)
+        c = rng.random()
+        if c < 0.3:
+            return Node("coll", (("prefixed", False, 1),), [inner])
+        if c < 0.45:
+            return Node("opt", (), [inner])
+        if c < 0.6:
+            return Node("typed", (("array", False, rng.choice((1, 2))), False, True), [inner])
+        if c < 0.8:
+            return Node("tuple", (), [inner, gen_dicty(rng, depth - 1, need_delim)])
+        names = tuple(rng.sample(range(0, 8), 2))
+        return Node("template", (names, rng.random() < 0.4), [inner, gen_dicty(rng, depth - 1, need_delim)])
+    if r < 0.62:
+        return gen_flagswitch2(rng, depth, need_delim)
+    if r < 0.72:
+        n = rng.choice((2, 3, 4))
+        names = tuple(rng.sample(range(0, 8), n))
+        return Node("template", (names, rng.random() < 0.4), [sub(True if i < n - 1 else need_delim) for i in range(n)])
+    if r < 0.80:
+        n = rng.choice((2, 3))
+        names = tuple(rng.sample(range(0, 8), n))
+        return Node("dataclass", (names,), [sub(True if i < n - 1 else need_delim) for i in range(n)])
+    if r < 0.88:
+        for _ in range(20):
+            b = gen_bitfield(rng)
+            if len(b.a[0][2]) >= 2:
+                return b
+        return b
+    if r < 0.94:
+        return gen_flag_template(rng, depth, need_delim, 0.0, 0.0)
+    return gen_ctx_template(rng, depth, need_delim, 0.0, 0.0)
+
+
+def perm_scope_specs():
+    """small fixed scope for the exhaustive insertion-order sweep: (name, Node)"""
+    P = lambda k, w: Node("prim", (k, w))
+    tbl = ((0, 1), (1, 2), (2, 4))
+    tbl2 = ((3, 1), (1, 4), (5, 64))
+    out = [
+        ("flagswitch-fixed-widths", Node("flagswitch", (tbl, False, 1, tbl), [P("u", 1), P("u", 2), P("u", 4)])),
+        ("flagswitch-variable-widths", Node("flagswitch", (tbl2, False, 2, tbl2), [
+            Node("cstr", ((0,), True, True)), Node("coll", (("prefixed", False, 1),), [P("u", 2)]), Node("bytearray", (False, 1))])),
+        ("flagswitch-declared-out-of-class-order", Node("flagswitch", (tbl, True, 4, ((2, 4), (0, 1), (1, 2))),
+                                                         [P("s", 2), Node("str", (False, 1, True)), P("u", 1)])),
+        ("template-3", Node("template", ((2, 0, 5), False), [P("u", 1), P("u", 2), Node("cstr", ((0,), True, True))])),
+        ("template-skip-missing", Node("template", ((1, 4, 2), True), [Node("opt", (), [P("u", 2)]), P("s", 4),
+                                                                      Node("opt", (), [Node("str", (False, 1, False))])])),
+        ("dataclass-3", Node("dataclass", ((0, 1, 2),), [P("u", 2), Node("bytearray", (False, 1)), P("u", 4)])),
+        ("bitfield-3", Node("adapter", (("bitfield", True, ((0, 3, None), (1, 4, None), (2, 1, ("bool",)))),), [P("u", 1)])),
+        ("collection-of-flagswitch", Node("coll", (("prefixed", False, 1),), [
+            Node("flagswitch", (tbl, False, 1, tbl), [P("u", 2), Node("cstr", ((0,), True, True)), P("u", 1)])])),
+        ("template-of-flagswitch-and-template", Node("template", ((0, 1, 2), False), [
+            Node("flagswitch", (tbl, False, 1, ((0, 1), (2, 4))), [P("u", 4), P("u", 1)]),
+            Node("template", ((3, 4), False), [P("u", 1), P("u", 2)]),
+            P("u", 2)])),
+    ]
+    return out
+
+
+def all_perms(n):
+    return [",".join(str(i) for i in p) for p in itertools.permutations(range(n))]
+
+
+# ---------------------------------------------------------------- aliasing probe
+
+MUTATED = "__mutated__"
+
+
+def deep_mutate(v, depth=0):
+    """modify IN PLACE every mutable container reachable from a decoded value; -> number of containers touched"""
+    import dataclasses
+    n = 0
+    if depth > 12:
+        return 0
+    try:
+        w = object.__getattribute__(v, "__wrapped__") if type(v).__name__ == "Proxy" else v
+    except Exception:
+        w = v
+    v = w
+    if isinstance(v, dict):
+        for x in list(v.values()):
+            n += deep_mutate(x, depth + 1)
+        v.clear()
+        v[MUTATED] = MUTATED
+        return n + 1
+    if isinstance(v, list):
+        for x in list(v):
+            n += deep_mutate(x, depth + 1)
+        v.clear()
+        v.append(MUTATED)
+        return n + 1
+    if isinstance(v, bytearray):
+        v[:] = b"\xee" * (len(v) + 1)
+        return 1
+    if isinstance(v, (tuple,)):
+        for x in v:
+            n += deep_mutate(x, depth + 1)
+        return n
+    if dataclasses.is_dataclass(v) and not isinstance(v, type):
+        for f in dataclasses.fields(v):
+            n += deep_mutate(getattr(v, f.name), depth + 1)
+            try:
+                setattr(v, f.name, MUTATED)
+                n += 1
+            except Exception:
+                pass
+        return n
+    if isinstance(v, (int, float, str, bytes, memoryview)) or v is None:
+        return 0
+    # recordclass instances (coordinates, TaggedUnion): item assignment
+    try:
+        ln = len(v)
+    except Exception:
+        return 0
+    for i in range(ln):
+        try:
+            n += deep_mutate(v[i], depth + 1)
+            v[i] = 12345
+            n += 1
+        except Exception:
+            break
+    return n
